@@ -25,3 +25,5 @@ open Pcore.Desc
 #print axioms C19_signatures_fault_nilSize
 #print axioms C19_signatures_fault_nilParams
 #print axioms C19_signatures_fault_paramIndex
+#print axioms C19_sizeMismatch_real_partial
+#print axioms C19_countMismatch_real_partial
